@@ -15,6 +15,7 @@
 //!           | R(arrival)              -- Rc<dyn ArrivalBound>
 //!           | N
 //!           | O(rate,epsilon)         -- ApproximatedPoisson::new(rate/10^4, epsilon/10^4)
+//!           | B(T,k)                  -- user-defined model: k jobs at once every T (default steps_iter)
 //! cost     := c(W) | m[w,w,..] | k[w,w,..] | x[w,w,..]
 //! supply   := D | Q(budget,period) | K(budget,deadline,period)
 //! ```
@@ -62,6 +63,33 @@ pub enum ArrDesc {
     /// deterministic event process (its `number_arrivals(1)` may be 0 and its first step may
     /// jump by several jobs); used as a *source* of derived curves only (C12)
     Poisson(u64, u64),
+    /// A model the *user* wrote against the public trait: bursts of `k` simultaneous jobs every
+    /// `T` time units, implementing only `number_arrivals` (= k * ceil(delta / T)) and
+    /// `clone_with_jitter` (via `Propagated`), so that the trait's default, brute-force
+    /// `steps_iter` runs
+    User(u64, u64),
+}
+
+/// See [ArrDesc::User].
+#[derive(Clone, Debug)]
+pub struct UserBurst {
+    pub period: u64,
+    pub burst: u64,
+}
+
+impl ArrivalBound for UserBurst {
+    fn number_arrivals(&self, delta: Duration) -> usize {
+        let x = du(delta);
+        if x == 0 {
+            0
+        } else {
+            (self.burst * ((x + self.period - 1) / self.period)) as usize
+        }
+    }
+
+    fn clone_with_jitter(&self, jitter: Duration) -> Box<dyn ArrivalBound> {
+        Box::new(Propagated::with_jitter(self, jitter))
+    }
 }
 
 impl ArrDesc {
@@ -121,6 +149,10 @@ impl ArrDesc {
                 Box::new(inner)
             }
             ArrDesc::Never => Box::new(Never {}),
+            ArrDesc::User(t, k) => Box::new(UserBurst {
+                period: (*t).max(1),
+                burst: (*k).max(1),
+            }),
             ArrDesc::Poisson(r, e) => Box::new(arrival::ApproximatedPoisson::new(
                 *r as f64 / 10_000.0,
                 *e as f64 / 10_000.0,
@@ -143,6 +175,7 @@ impl ArrDesc {
             ArrDesc::Rc(_) => "Rc",
             ArrDesc::Never => "Never",
             ArrDesc::Poisson(..) => "ApproximatedPoisson",
+            ArrDesc::User(..) => "user-defined",
         }
     }
 }
@@ -170,6 +203,7 @@ impl fmt::Display for ArrDesc {
             ArrDesc::Rc(a) => write!(f, "R({})", a),
             ArrDesc::Never => write!(f, "N"),
             ArrDesc::Poisson(r, e) => write!(f, "O({},{})", r, e),
+            ArrDesc::User(t, k) => write!(f, "B({},{})", t, k),
         }
     }
 }
@@ -339,6 +373,14 @@ impl<'a> Parser<'a> {
                 let e = self.num()?;
                 self.expect(b')')?;
                 Ok(ArrDesc::Poisson(r, e))
+            }
+            Some(b'B') => {
+                self.expect(b'(')?;
+                let t = self.num()?;
+                self.expect(b',')?;
+                let k = self.num()?;
+                self.expect(b')')?;
+                Ok(ArrDesc::User(t, k))
             }
             Some(b'C') => {
                 self.expect(b'[')?;
